@@ -158,6 +158,25 @@ ApplyBatch(r) == /\ rstate[r] = "apply"
                          /\ UNCHANGED <<applied, expected>>
                  /\ inmsg' = [inmsg EXCEPT ![r] = <<>>]
                  /\ UNCHANGED <<pvars, sess, net, reported, resend, initp, stall, faults, downs>>
+\* The WALEntryApplier callback (the replica's engine) - or the decoding of an entry - fails at entry j of a message
+\* the applier has ACCEPTED (Replica.processEntries returns the error, the state machine goes to ERROR, the stream is
+\* given up and a new one is opened after the back-off).  Entries m[1]..j-1 have reached the engine, but NOTHING of the
+\* message counts: expected, the applied position and the reported sequence stay where they were, so that the new
+\* stream asks for the whole message again and the retry re-applies it from its first entry (puts and deletes are
+\* idempotent; the half-applied message is overwritten in log order).  A named deviation from "applied is a prefix at
+\* every moment": between ApplyFail and the retry the engine holds entries the counters do not know of (DESIGN.md C13);
+\* what the specification insists on is that the counters never run ahead of what is completely applied - a counter
+\* advanced entry by entry would skip the rest of a transaction (its entries share one number) for good.
+\* `applied` is the sequence of entries that COUNT; the callback's partial hand-over is recorded by GEN_Repl!GApplyFail.
+ApplyFail(r) == /\ rstate[r] = "apply" /\ faults < MaxFaults
+                /\ Accepts(expected[r], inmsg[r])
+                /\ faults' = faults + 1
+                /\ inmsg' = [inmsg EXCEPT ![r] = <<>>]
+                /\ rstate' = [rstate EXCEPT ![r] = "down"]
+                /\ sess' = [sess EXCEPT ![r].conn = FALSE]
+                /\ net' = [net EXCEPT ![r] = <<>>]
+                /\ resend' = [resend EXCEPT ![r] = 0] /\ initp' = [initp EXCEPT ![r] = FALSE]
+                /\ UNCHANGED <<pvars, expected, applied, reported, stall, downs>>
 Ack(r) == /\ rstate[r] = "ack"
           /\ reported' = [reported EXCEPT ![r] = expected[r] - 1]
           /\ sess' = IF sess[r].conn THEN [sess EXCEPT ![r].lastAck = Max(@, expected[r] - 1)] ELSE sess
@@ -205,7 +224,7 @@ ClientWriteOnReplica(r) == UNCHANGED vars
 PNext == (\E n \in 1..MaxBatch : PInvoke(n)) \/ PWriteDo \/ PStop \/ PRotate
 SNext(r) == PushSend(r) \/ PollSend(r) \/ InitialSend(r) \/ Resend(r)
 NNext(r) == Lose(r) \/ Dup(r) \/ Reorder(r)
-RNext(r) == Deliver(r) \/ ApplyBatch(r) \/ Ack(r) \/ Nack(r) \/ RNotice(r) \/ Reconnect(r)
+RNext(r) == Deliver(r) \/ ApplyBatch(r) \/ ApplyFail(r) \/ Ack(r) \/ Nack(r) \/ RNotice(r) \/ Reconnect(r)
 FNext(r) == Disconnect(r) \/ HeartbeatDrop(r) \/ Overflow(r) \/ RRestart(r) \/ Stall(r)
 Next == PNext \/ \E r \in Replicas : SNext(r) \/ NNext(r) \/ RNext(r) \/ FNext(r)
 
